@@ -101,8 +101,11 @@ def stream_exact(ctx, n, seeds):
                         if bad:
                             viol(ctx, f"{kind}:p_next", f"{kind}.p_next({c})[{bad[0]}] = {bad[1]}, prefix-weight ratio is {bad[2]}", {"kind": "lm", "what": "p_next", "lm": kind, "sr": sr, "grammar": g, "context": c, "token": bad[0], "observed": str(bad[1]), "expected": str(bad[2])})
                         if Zc and sr == "frac":
-                            tot = sum((dec_val(v) for v in q["ok"].values()), Fraction(0))
-                            if tot != 1:
+                            vals_ = [dec_val(v) for v in q["ok"].values()]
+                            tot = sum(vals_, Fraction(0))
+                            # the CNF pipeline can turn rational weights into floats (Float.star of the int 0 is 1.0)
+                            inexact = any(isinstance(v, float) for v in vals_)
+                            if (abs(float(tot) - 1.0) > 1e-9) if inexact else (tot != 1):
                                 viol(ctx, f"{kind}:sum-to-one", f"{kind}.p_next({c}) sums to {tot}", {"kind": "lm", "what": "sum", "lm": kind, "sr": sr, "grammar": g, "context": c, "observed": str(tot)})
                     # unnormalised weights = prefix weights = parser value on context+token
                     q = r["results"][k + i]
